@@ -43,29 +43,32 @@ META = {
         "refutations C11_flag_sound_old_refuted, C11_fixpoint_and_return_old_refuted).  A single worklist "
         "pass does not reach the fixpoint (C11_single_pass_refuted): the listener callbacks "
         "re-enqueue only inserted/modified ops, users of replaced results and single-use operand definers of erased "
-        "ops; the outer while loop is what guarantees it.  Proved for every IR model satisfying the stated primitive "
-        "laws (LiveLaws / EvLaws; satisfiability shown on a minimal model, not discharged for the heap model): the "
-        "worklist only holds non-erased ops, so no pattern is invoked on an erased op; every op created, erased or "
-        "with changed operands is reported by an insertion/removal/modification event, except by inline_block with "
-        "arg_values (C11_events_complete_refuted).  The worklist of the model is C12's abstract set-stack.  Tie to "
+        "ops; the outer while loop is what guarantees it.  Also proved outright for the heap model (EvLaws proved, "
+        "C11_events_complete_partial_model): every op created, erased or with changed operands is reported by an "
+        "insertion/removal/modification event, for every method except inline_block with arg_values "
+        "(C11_events_complete_refuted).  No-stale (the worklist only holds non-erased ops, so no pattern is invoked "
+        "on an erased op) is proved for every IR model satisfying LiveLaws; for the heap model its structural half "
+        "is proved for all thirteen primitives and C11_no_stale_model_partial leaves one hypothesis, InvLaws (a heap "
+        "invariant `users are live, the region walk yields live ops` preserved by the primitives).  The worklist of the model is C12's abstract set-stack.  Tie to "
         "xdsl/pattern_rewriter.py, builder.py, rewriter.py: the action table is re-derived from the running code "
         "(every method on scratch IR) and scripted patterns are walked by the real driver in all 8 configurations "
         "with LIFO and seeded pop orders; invocation log, listener log, return value and final IR must be equal."),
     "level_note": (
-        "Trusted: Coq kernel; hand-written model (coq/C11/Model.v, IR.v); correspondence harness; the primitive laws "
-        "LiveLaws/EvLaws for the no-stale and event theorems (assumptions, listed).  Not covered: post_walk_func, "
+        "Trusted: Coq kernel; hand-written model (coq/C11/Model.v, IR.v); correspondence harness; the heap "
+        "invariant InvLaws for the no-stale theorem (assumption, listed).  Not covered: post_walk_func, "
         "folding_enabled (Folder), safe_erase=False, name hints, successors / block uses, TypeConversionPattern, "
         "exceptions raised inside patterns, operations outside the rewritten region that get enqueued (the module op "
         "itself: the walker then raises ValueError), 'detached but not erased' ops (only reachable by a pattern that "
         "drops the region returned by move_region_contents_to_new_regions), patterns mutating the IR without the "
         "rewriter."),
 }
-COQ_TARGETS = ["C11/Enc.vo", "C11/Proofs.vo", "C11/ProofsIR.vo", "C11/ProofsWL.vo", "Props/C11.vo"]
+COQ_TARGETS = ["C11/Enc.vo", "C11/Proofs.vo", "C11/ProofsIR.vo", "C11/ProofsWL.vo", "C11/ProofsEv.vo",
+               "C11/ProofsLive.vo", "Props/C11.vo"]
 REQ = ["C11.Model", "C11.IR", "C11.Enc"]
 ASSUMPTIONS = [
     "patterns are sequences of PatternRewriter calls computed from the IR (plus an in-place attribute update made only when has_done_action is set); they respect the documented preconditions of the methods (no exception, no dangling uses, regions returned by move_region_contents_to_new_regions are re-attached within the match)",
     "terminating pattern sets: the fuel of the modelled while loops is a parameter; theorems are about runs that return",
-    "LiveLaws / EvLaws (C11/Proofs.v) for C11_no_stale / C11_events_complete_partial: every primitive preserves `use lists name live users, region walk yields live ops`; only erase kills ops and it kills op.walk(); inserted ops are alive; an op's operand list is changed only by the use-replacing primitives (for the users they iterate over), by erase (inside op.walk()) and by inline_block with arg_values -- stated as hypotheses, shown satisfiable on a minimal model, not proved for the heap model",
+    "InvLaws (C11/Proofs.v), the only law group not proved for the heap model, needed by C11_no_stale_model_partial: an invariant `wf` of the heap with `use lists name only live users` and `the region walk yields only live ops` that all thirteen primitives preserve (tree / use-def consistency of the IR edits, property C01's subject); shown satisfiable on a minimal model.  StructLaws (only erase kills ops and only op.walk(); inserted ops are alive) and EvLaws (which ops a primitive can create, kill or change the operands of) ARE proved for the heap model (ProofsLive.v, ProofsEv.v)",
     "FlagLaws (a use-replacing primitive over an empty / entirely filtered-out use list is the identity) is proved for the heap model (C11_flag_laws_hold_for_the_model)",
 ]
 TRUSTED = []
